@@ -83,6 +83,9 @@ def run(chk, tier):
         t = op.split(" ")
         chk.case((t[1], t[2], t[3]), nontrivial=(set(t[2]) != {"0"}))
     chk.run_family(BACKEND_CFGS if quick else BACKEND_CFGS + ["cpuoff-release"], hot, oracle=oracle)
+    # the 32-bit fixsliced AES backend (the repository's file, executed through #[path]): both orders, normal and compact
+    from . import fs32
+    fs32.run(chk, 12 if quick else 400, oracle_native=False, per_block=False)
     # Threefish under any tweak, both entry points, both orders
     r = chk.rng
     tf = []
